@@ -3,12 +3,13 @@ NEXT Next
 CONSTANTS
   Kinds <- AllKinds
   HistKinds <- ThreeKinds
-  Defaults <- OnlyParse
+  Defaults <- ParseOrRe
   RegTypes <- GivenStep
   SingleTypes <- OnlyGiven
   FullRegs = 2
   MaxRegs = 3
   SampleMod <- ModQuick
+  SampleModEnv <- ModEnvQuick
   BigLen = 2
 INVARIANT NoAmbiguousPair
 INVARIANT LookupFirstHit
